@@ -581,13 +581,37 @@ func snapshotData(d []SeriesData) string {
 	return sb.String()
 }
 
+// arenaLabels moves the label sets of all series into one backing array, followed by a few sentinel
+// labels, and returns the array; every series' slice keeps its length but its capacity reaches
+// into what follows.
+func arenaLabels(d []SeriesData) []labels.Label {
+	n := 0
+	for _, s := range d {
+		n += len(s.Labels)
+	}
+	arena := make([]labels.Label, 0, n+4)
+	for i := range d {
+		b := len(arena)
+		arena = append(arena, d[i].Labels...)
+		d[i].Labels = arena[b:len(arena)]
+	}
+	for k := 0; k < 4; k++ {
+		arena = append(arena, labels.Label{Name: "~sentinel", Value: "~"})
+	}
+	return arena
+}
+
 func lifecycleCase(c *Case, lean *LeanDriver) Verdict {
 	v := baseVerdict(c, "lifecycle")
 	data := c.Data()
-	// labels deliberately handed out unsorted-safe: the storage returns the very same slices
+	// the storage returns the very same label slices on every call, and they are carved out of one
+	// backing array (as an arena-allocating storage does): the spare capacity of one series' label
+	// slice is the next series' labels, so an append in place writes into storage-owned memory
+	arena := arenaLabels(data)
 	st := NewMemStorage(data)
 	st.ShareLabels = true
-	before := snapshotData(st.Series)
+	before := snapshotData(st.Series) + labels.Labels(arena).String()
+	snapshotData := func(d []SeriesData) string { return snapshotData(d) + labels.Labels(arena).String() }
 	if c.Procs > 0 {
 		runtime.GOMAXPROCS(c.Procs)
 	}
